@@ -4,7 +4,8 @@ import YaegiVerif.Model.Cfg
    run FUEL STMT   → y=<normal|panic|fuel>:<v1,v2,…> g=<normal|panic|fuel>:<v1,v2,…> n=<instructions>
    EXPR  = (lit n) | (var i) | (bin add|sub|mul|and|or|xor|quo|rem a b) | (neg a) | (cpl a)
    BEXPR = (cmp eq|ne|lt|le|gt|ge a b) | (not a) | (land a b) | (lor a b)
-   STMT  = skip | brk | cont | (seq a b) | (assign i e) | (print e) | (ite c t e) | (loop c body post) -/
+   STMT  = skip | brk | cont | (seq a b) | (assign i e) | (print e) | (ite c t e) | (loop c body post)
+         | (switch (c BEXPR STMT fall) …)   -- clauses in order; default = last clause with a true condition -/
 namespace YaegiVerif.Driver.C01
 open YaegiVerif YaegiVerif.Core
 
@@ -31,6 +32,7 @@ partial def parseB : Sexp → Option BExpr
   | .list [.atom "lor", a, b] => do some (.lor (← parseB a) (← parseB b))
   | _ => none
 
+mutual
 partial def parseStmt : Sexp → Option Stmt
   | .atom "skip" => some .skip
   | .atom "brk" => some .brk
@@ -40,7 +42,14 @@ partial def parseStmt : Sexp → Option Stmt
   | .list [.atom "print", e] => do some (.print (← parseExpr e))
   | .list [.atom "ite", c, t, e] => do some (.ite (← parseB c) (← parseStmt t) (← parseStmt e))
   | .list [.atom "loop", c, b, p] => do some (.loop (← parseB c) (← parseStmt b) (← parseStmt p))
+  | .list (.atom "switch" :: cs) => do some (.switch (← parseClauses cs))
   | _ => none
+partial def parseClauses : List Sexp → Option Clauses
+  | [] => some .nil
+  | .list [.atom "c", c, b, f] :: rest => do
+    some (.cons (← parseB c) (← parseStmt b) (← f.bool?) (← parseClauses rest))
+  | _ => none
+end
 
 def showOut (vs : List Val) : String := ",".intercalate (vs.map fun v => toString v.toInt)
 
